@@ -220,9 +220,6 @@ def showMap (m : IdxMap) : String :=
   if m.isEmpty then "-" else
   ",".intercalate ((m.mergeSort fun a b => a.1 ≤ b.1).map fun e => s!"{e.1}:{e.2}")
 
-def showIds (l : List Nat) : String :=
-  if l.isEmpty then "-" else ",".intercalate ((l.mergeSort (· ≤ ·)).map toString)
-
 def record (s : Leader) (ev : List String) : String :=
   s!"c{s.commit} t{s.term} m[{showMap s.matchIdx}] n[{showMap s.nextIdx}] p[{showIds s.pending}] e[{if ev.isEmpty then "-" else ",".intercalate ev}]"
 
@@ -280,5 +277,65 @@ def judge (log : List Nat) (targets : List Node) (pre post : Obs) : Option Strin
     else if vp.length > 0 && entryTerm log n != some post.term then some "commit-wrong-term"
     else none
   else none
+
+/-! ### join requests on the leader (`handle_join_cluster`, `drain_commit_actions` NodeJoin) -/
+
+inductive JoinState where
+  | pending | ok | err
+deriving DecidableEq, Repr, Inhabited
+
+def JoinState.show : JoinState → String
+  | .pending => "pending" | .ok => "ok" | .err => "err"
+
+structure JoinReq where
+  id : Nat
+  state : JoinState
+  index : Nat            -- log index of the AddNode entry (0 when rejected)
+deriving DecidableEq, Repr, Inhabited
+
+structure JoinSt where
+  leader : Leader
+  joins : List JoinReq := []
+deriving Repr, Inhabited
+
+inductive JnOp where
+  | join (id role status : Nat)
+  | ack (peer respTerm matchIdx : Nat)
+  | flushed (durable : Nat)
+  | bad
+
+/-- `drain_commit_actions(new_commit)`: every pending join whose entry index is `≤ commit` is answered -/
+def resolveJoins (commit : Nat) (js : List JoinReq) : List JoinReq :=
+  js.map fun j => if j.state == .pending && j.index ≤ commit then { j with state := .ok } else j
+
+def jnStep (s : JoinSt) : JnOp → Option (JoinSt × List String × String)
+  | .join id role _status =>
+    match joinCheck s.leader.view id role with
+    | some t => some ({ s with joins := s.joins ++ [{ id := id, state := .err, index := 0 }] }, [s!"!{t}"], "join:" ++ t)
+    | none =>
+      -- the AddNode entry is appended to the leader's log (current term); answer deferred
+      let l := { s.leader with log := s.leader.log ++ [s.leader.term] }
+      some ({ leader := l, joins := s.joins ++ [{ id := id, state := .pending, index := l.log.length }] }, [], "join:proposed")
+  | .ack p t m =>
+    let r := handleAppendResult s.leader p t (.success m)
+    some ({ leader := r.1, joins := if r.1.commit > s.leader.commit then resolveJoins r.1.commit s.joins else s.joins },
+      r.2.1.filter (fun e => e.startsWith "N" || e == "BF" || e.startsWith "!"), r.2.2)
+  | .flushed d =>
+    match handleLogFlushed s.leader d with
+    | none => none
+    | some r =>
+      some ({ leader := r.1, joins := if r.1.commit > s.leader.commit then resolveJoins r.1.commit s.joins else s.joins },
+        r.2.1.filter (fun e => e.startsWith "N" || e == "BF" || e.startsWith "!"), r.2.2)
+  | .bad => some (s, ["!bad-op"], "bad-op")
+
+def jnRecord (s : JoinSt) (ev : List String) : String :=
+  let js := if s.joins.isEmpty then "-" else ",".intercalate (s.joins.map fun j => s!"{j.id}:{j.state.show}")
+  s!"c{s.leader.commit} l{s.leader.log.length} j[{js}] e[{if ev.isEmpty then "-" else ",".intercalate ev}]"
+
+def jnRun (s : JoinSt) : List JnOp → Option JoinSt
+  | [] => some s
+  | op :: rest => match jnStep s op with
+    | none => none
+    | some (s', _, _) => jnRun s' rest
 
 end DEngine.Commit
